@@ -180,7 +180,7 @@ def run(chk, replay=None):
                                    depth=40 if quick else 80, seed=chk.seed, workers=WORKERS)
         rnd = random.Random(chk.seed)
         sim.sort(key=lambda b: (-len(b["steps"]), vf._canon(b)))
-        keep = 300 if quick else 5000
+        keep = 300 if quick else 3000
         sim = sim[:keep // 2] + rnd.sample(sim[keep // 2:], min(keep // 2, max(0, len(sim) - keep // 2)))
         st3["replayed"] = len(sim)
         st3["max_depth"] = max([len(b["steps"]) for b in sim] or [0])
